@@ -29,7 +29,7 @@ def clouds(draw, min_n=1, max_n=30):
     elif mode == "free":
         cells = draw(st.lists(st.tuples(st.integers(0, 15), st.integers(0, 15)), min_size=n, max_size=n, unique=True))
         scale = draw(gen.log_uniform(-2, 4))
-        off = draw(st.sampled_from([0.0, 100.0, -1e4]))
+        off = draw(st.sampled_from([0.0, 100.0, -1e4, 512000.0, -7.52e6]))  # also UTM-sized coordinates with a (sub-)metre spacing
         pts = [[off + scale * (a + gen.JITTER[(a * 7 + b * 3) % 12]), off + scale * (b + gen.JITTER[(a * 5 + b * 11 + 4) % 12])] for a, b in cells]
     else:
         cells = draw(st.lists(st.tuples(st.integers(0, 3), st.integers(0, 3), st.integers(0, 11), st.integers(0, 11)), min_size=n, max_size=n, unique=True))
